@@ -517,6 +517,8 @@ pub fn run_case(case: &Case, out: &mut Out) {
                         out.err("decode");
                     }
                     Some(Ok(v)) => {
+                        // the decoder never leaves the quantifier: valid tags, comparable without panic
+                        if !valid_tags(&v) || guard(|| v == v) != Some(true) { out.viol("decode-produced-invalid-constr", format!("{} -> {}", hex(&bs), show_s(&v))); }
                         if op[0] == "decx" {
                             if show_s(&v) != op[2..].join(" ") { out.viol("decode-alt-encoding", format!("{} decoded to {} expected {}", hex(&bs), show_s(&v), op[2..].join(" "))); }
                             out.cov("dec-alt-ok");
